@@ -127,6 +127,21 @@ def apply (s : St) : Action → Option St
         voted := s.voted.filter (fun x => decide (x.1 ≠ j) || decide (x ∈ s.svoted))
         acks := s.acks.filter (fun x => decide (x.1 ≠ j) || decide (x ∈ s.sacks)) }
 
+/-- Whom node `j` has voted for in term `t` according to a (campaign list, vote list) pair of an abstract
+    state: itself if it campaigned in `t` (becomeCandidate sets Vote := id), and the candidate of every
+    recorded grant. `votesIn s.camp s.voted j (s.term j)` is what the certificate driver compares with the
+    volatile `Vote` of the real node, `votesIn s.scamp s.svoted j (s.dterm j)` what it compares with the
+    vote in the HardState read back from the real storage object (Driver/Raft.lean `cmpNode`). In reachable
+    states all members are equal (`Props/C01.lean: C01_vote_of_term_unique`); a term in which the node never
+    voted or campaigned gives `[]`, whatever older or newer terms hold. -/
+def votesIn (camp : List (Nat × Nat)) (voted : List (Nat × Nat × Nat)) (j t : Nat) : List Nat :=
+  (if (j, t) ∈ camp then [j] else []) ++
+    (voted.filter (fun x => x.1 == j && x.2.1 == t)).map (fun x => x.2.2)
+
+/-- a real `Vote` field (0 = none) says the same as a `votesIn` list -/
+def voteAgrees (l : List Nat) (v : Nat) : Bool :=
+  if v = 0 then l.isEmpty else !l.isEmpty && l.all (· == v)
+
 def run (s : St) : List Action → Option St
   | [] => some s
   | a :: as => match apply vs s a with
